@@ -15,6 +15,23 @@ def run(tier, seed):
     res = run_tlc("MC_Url", "MC_Url", workdir=chk.dir, env={"TIER": tier}, timeout=3000)
     chk.add_tlc(res)
     cases = [(r["id"], r["case"]) for r in sorted(res.records, key=lambda r: r["id"])]
+    # scale-up: boards with a side of 1000 and more (a width or height with four digits in the URL)
+    nid = max(c[0] for c in cases) + 1
+    def sparse(n, empty, clues):
+        cells = [empty] * n
+        for pos, v in clues.items():
+            cells[pos % n] = v
+        return cells
+    big = [{"mod": "nurikabe", "h": 3, "w": 1200, "cells": sparse(3600, 0, {0: 5, 1777: 17, 3599: 300})},
+           {"mod": "nurikabe", "h": 1100, "w": 2, "cells": sparse(2200, 0, {3: 2, 2199: 16})},
+           {"mod": "slither", "h": 2, "w": 1001, "cells": sparse(2002, -1, {0: 3, 1000: 0, 2001: 2})},
+           {"mod": "masyu", "h": 1, "w": 1003, "cells": sparse(1003, 0, {5: 1, 1002: 2})}]
+    if tier != "quick":      # room codecs on such boards cost TLC minutes (flood fill over 2000 cells)
+        big += [{"mod": "lits", "h": 2, "w": 1000, "rgs": [x // 5 for x in range(1000)] * 2, "vals": []},
+                {"mod": "heyawake", "h": 2, "w": 1000, "rgs": [x // 10 for x in range(1000)] * 2, "vals": [(-1 if r % 3 else r % 7) for r in range(100)]}]
+    for c in big:
+        cases.append((nid, c))
+        nid += 1
     with RobustPool(NPROC) as pool:
         outs = pool.map(url_codecs.work, chunks(cases, NPROC * 4))
     recs = [x for o in outs for x in o]
